@@ -45,6 +45,8 @@ pub fn repo_op() -> impl Strategy<Value = Op> {
         1 => Just(Op::PackRefs),
         2 => any::<u16>().prop_map(Op::Restore),
         2 => any::<u16>().prop_map(Op::RmCached),
+        2 => any::<u16>().prop_map(Op::CaseVariant),
+        3 => (any::<u16>(), any::<u16>()).prop_map(|(a, b)| Op::RevertTo(a, b)),
     ]
 }
 
